@@ -21,7 +21,8 @@ def record():
     if "rec" in _CACHE:
         return _CACHE["rec"]
     out = os.path.join(core.scratch(), "pytrace.ndjson")
-    env = dict(os.environ, PYTRACE_OUT=out, PYTHONPATH="/verif", PYTHONHASHSEED="0", PYTHONDONTWRITEBYTECODE="1")
+    root = os.path.dirname(os.path.dirname(os.path.abspath(__file__)))
+    env = dict(os.environ, PYTRACE_OUT=out, PYTHONPATH=root, PYTHONHASHSEED="0", PYTHONDONTWRITEBYTECODE="1")
     p = subprocess.run([sys.executable, "-B", "-m", "pytest", "-q", "-p", "no:cacheprovider", "-p", "harness.pytrace", "tests"],
                        cwd=core.REPO, env=env, capture_output=True, text=True, timeout=1800)
     if p.returncode not in (0, 1) or not os.path.exists(out):
